@@ -46,6 +46,20 @@ VF_OP(packHalf_of_unpackHalf_all, InH, "h"){
 	unsigned e=(in.h>>10)&31, m=in.h&0x3ff; bool nan=(e==31&&m);
 	if(back!=in.h) c.fail(nan?"roundtrip:nan-code-changed":"roundtrip:code-changed",vf::show((unsigned)back),vf::show((unsigned)in.h));
 }
+// the same two enumerations with the SSE control register set to flush-to-zero + denormals-are-zero (what -ffast-math start-up code,
+// audio and game engines run with): the conversions are specified on bit patterns, so the floating-point environment of the caller
+// must not matter.  No hardware cross-check here (the oracle is the integer model only); the control register is restored afterwards.
+struct FtzDaz { unsigned old; FtzDaz(){ old=_mm_getcsr(); _mm_setcsr(old|0x8040u); } ~FtzDaz(){ _mm_setcsr(old); } };
+VF_OP(unpackHalf1x16_all_ftz_daz, InH, "h"){
+	u32 gb; { FtzDaz env; float got=glm::unpackHalf1x16(in.h); memcpy(&gb,&got,4); }
+	float want=ref_half_to_float(in.h); unsigned e=(in.h>>10)&31, m=in.h&0x3ff; float got=bitsf(gb);
+	if(e==31&&m){ if(!isnan_b(got)) c.fail("ftz+daz:nan-code:not-nan",got,want); }
+	else { c.cls(e==0&&m? "subnormal":"other"); if(gb!=fbits(want)) c.fail(e==0&&m? "ftz+daz:subnormal:wrong-value":"ftz+daz:wrong-value",got,want); }
+}
+VF_OP(packHalf_of_unpackHalf_all_ftz_daz, InH, "h"){
+	u16 back; { FtzDaz env; float f=glm::unpackHalf1x16(in.h); back=glm::packHalf1x16(f); }
+	if(back!=in.h) c.fail("ftz+daz:roundtrip:code-changed",vf::show((unsigned)back),vf::show((unsigned)in.h));
+}
 VF_OP(packHalf1x16_all, InF, "f"){
 	u16 got=glm::packHalf1x16(in.x);
 	if(isnan_b(in.x)){ c.cls("nan"); if(!((got&0x7c00)==0x7c00&&(got&0x3ff))) c.fail("nan:not-kept",vf::show((unsigned)got),"a half NaN"); return; }
@@ -120,7 +134,7 @@ static void workload(){
 	// stride: the sanitizer re-run (C20) strides the float sweep by a seed-dependent odd stride
 	u64 stride=1; { auto it=vf::cfg().extra.find("stride"); if(it!=vf::cfg().extra.end()) stride=strtoull(it->second.c_str(),0,10)|1; }
 	u64 phase=stride>1? (vf::cfg().seed*2654435761ULL)%stride : 0;
-	vf::sweep("h16",1u<<16,1u<<10,[&](vf::Ctx& c,u64 lo,u64 hi){ for(u64 h=lo;h<hi;h++){ InH in{(u16)h}; if(vf::want(unpackHalf1x16_all)) vf::run(c,unpackHalf1x16_all,in); if(vf::want(packHalf_of_unpackHalf_all)) vf::run(c,packHalf_of_unpackHalf_all,in);} });
+	vf::sweep("h16",1u<<16,1u<<10,[&](vf::Ctx& c,u64 lo,u64 hi){ for(u64 h=lo;h<hi;h++){ InH in{(u16)h}; if(vf::want(unpackHalf1x16_all)) vf::run(c,unpackHalf1x16_all,in); if(vf::want(packHalf_of_unpackHalf_all)) vf::run(c,packHalf_of_unpackHalf_all,in); if(vf::want(unpackHalf1x16_all_ftz_daz)) vf::run(c,unpackHalf1x16_all_ftz_daz,in); if(vf::want(packHalf_of_unpackHalf_all_ftz_daz)) vf::run(c,packHalf_of_unpackHalf_all_ftz_daz,in);} });
 	u64 total=(1ULL<<32)/stride;
 	if(vf::want(packHalf1x16_all)) vf::sweep("f32",total,1u<<18,[&](vf::Ctx& c,u64 lo,u64 hi){ for(u64 i=lo;i<hi;i++){ InF in{bitsf((u32)(i*stride+phase))}; vf::run(c,packHalf1x16_all,in);} });
 	if(vf::want(packHalf1x16_monotone)) vf::sweep("f32m",total,1u<<18,[&](vf::Ctx& c,u64 lo,u64 hi){ for(u64 i=lo;i<hi;i++){ InF in{bitsf((u32)(i*stride+phase))}; vf::run(c,packHalf1x16_monotone,in);} });
